@@ -77,6 +77,7 @@ func main() {
 	}
 
 	p, err := Load(*repo, nil)
+	loadS := time.Since(t0).Seconds()
 	rep := NewReport(*prop, p)
 	if err != nil {
 		rep.Begin("framework", "the program loads and type-checks", 0)
@@ -89,6 +90,7 @@ func main() {
 	if p != nil {
 		extra["packages_loaded"] = len(p.Roots)
 		extra["repo_functions"] = len(p.RepoFns)
+		extra["load_s"] = loadS
 	}
 	if *tier == "thorough" && err == nil {
 		extra["variants"] = runVariants(*prop, *repo, *variants, rep)
